@@ -60,8 +60,8 @@ package generic
 //@   ensures[C04,C12] result != nil && isScanner(scanner) && sc(scanner).content == old(sc(scanner).content) && result.typ != tokenizers.Eof
 //@   ensures[C04] spans(result.value, scanner, old(cur(scanner)), cur(scanner))
 //@   ensures[C12] result.line == L(seq(sc(scanner).content), old(cur(scanner))) && result.column == C(seq(sc(scanner).content), old(cur(scanner)))
-//@   ensures[C13] result.typ == tokenizers.Word && allIn(c.mp, scanner, old(cur(scanner)) + 1, cur(scanner))
-//@   ensures[C13] cur(scanner) == len(sc(scanner).content) || view(c.mp, sc(scanner).content[cur(scanner)]) == nil
+//@   ensures[C13,C09] result.typ == tokenizers.Word && allIn(c.mp, scanner, old(cur(scanner)) + 1, cur(scanner))
+//@   ensures[C13,C09] cur(scanner) == len(sc(scanner).content) || view(c.mp, sc(scanner).content[cur(scanner)]) == nil
 //@   assigns sc(scanner).position, sc(scanner).line, sc(scanner).column
 //@   nopanic
 //@   loop 0
